@@ -26,6 +26,7 @@ import (
 	"testing"
 
 	"github.com/specterops/dawgs/cypher/frontend"
+	"github.com/specterops/dawgs/cypher/models/cypher"
 	cypherfmt "github.com/specterops/dawgs/cypher/models/cypher/format"
 )
 
@@ -138,7 +139,164 @@ func TestVerifBoundedNeo4jRewrite(t *testing.T) {
 	if rewritten == 0 {
 		fail("harness: no query of the enumeration was rewritten")
 	}
-	res := map[string]any{"name": "neo4j-rewrite", "bound": fmt.Sprintf("comparison chains of 1..3 partial comparisons over %d operands and %d operators in %d positions (%d chains; 3 partials %s)", len(operands), len(operators), len(shapes), len(chains), map[bool]string{true: "exhaustive", false: "with the fourth operand and the operators rotated"}[thorough]), "cases": cases, "rewritten": rewritten, "exhaustive": thorough, "failures": failures}
+	// ---- pattern property parameters: (n $p) is expanded into a map literal of generated parameters ----
+	// ORACLE (from the statement): the text that is sent, read with the parameters that are sent, must constrain every
+	// pattern element to exactly the keys and values of the map the caller supplied for it, and every parameter the
+	// caller supplied and the text still mentions keeps its value.
+	expanded := 0
+	maps := []map[string]any{{}, {"k": 1}, {"k": 2, "j": "x"}, {"j": "y", "k": 3, "l": true}}
+	patternShapes := []struct {
+		text  string
+		names []string // the parameter of each pattern element that carries one, in text order
+	}{
+		{"match (n $a) return n", []string{"a"}},
+		{"match (n $a)-[r]->(m) return n", []string{"a"}},
+		{"match (n)-[r $a]->(m) return n", []string{"a"}},
+		{"match (n $a)-[r]->(m $b) return n", []string{"a", "b"}},
+		{"match (n $a)-[r $b]->(m $c) return n", []string{"a", "b", "c"}},
+		{"match (n $a), (m $b) return n, m", []string{"a", "b"}},
+		{"match (n $a) match (m $b) return n, m", []string{"a", "b"}},
+		{"match (n $a) with n match (m $b) return n, m", []string{"a", "b"}},
+		{"match (n $a)-[r]->(m $a) return n", []string{"a", "a"}},
+		{"match (n $a) where n.x = $__dawgs_pattern_property_0 match (m $b) return n", []string{"a", "b"}},
+		{"match (n $a)-[r]->(m $b) where m.x = $__dawgs_pattern_property_1 and m.y = $a return n", []string{"a", "b"}},
+	}
+	elementsOf := func(q *cypher.RegularQuery) []*cypher.Expression {
+		var out []*cypher.Expression
+		clauses := func(rcs []*cypher.ReadingClause) {
+			for _, rc := range rcs {
+				if rc.Match == nil {
+					continue
+				}
+				for _, part := range rc.Match.Pattern {
+					for _, el := range part.PatternElements {
+						if np, ok := el.AsNodePattern(); ok {
+							out = append(out, &np.Properties)
+						} else if rp, ok := el.AsRelationshipPattern(); ok {
+							out = append(out, &rp.Properties)
+						}
+					}
+				}
+			}
+		}
+		if q.SingleQuery.SinglePartQuery != nil {
+			clauses(q.SingleQuery.SinglePartQuery.ReadingClauses)
+		}
+		if mp := q.SingleQuery.MultiPartQuery; mp != nil {
+			for _, part := range mp.Parts {
+				clauses(part.ReadingClauses)
+			}
+			if mp.SinglePartQuery != nil {
+				clauses(mp.SinglePartQuery.ReadingClauses)
+			}
+		}
+		return out
+	}
+	var assign func(names []string, i int, params map[string]any, f func(map[string]any))
+	assign = func(names []string, i int, params map[string]any, f func(map[string]any)) {
+		if i == len(names) {
+			f(params)
+			return
+		}
+		if _, done := params[names[i]]; done {
+			assign(names, i+1, params, f)
+			return
+		}
+		for _, m := range maps {
+			params[names[i]] = m
+			assign(names, i+1, params, f)
+		}
+		delete(params, names[i])
+	}
+	for _, shape := range patternShapes {
+		original, err := frontend.ParseCypher(frontend.NewContext(), shape.text)
+		if err != nil {
+			fail("harness: %q does not parse: %v", shape.text, err)
+			continue
+		}
+		var carriers []int // index among all pattern elements of the ones that carry a parameter
+		for i, props := range elementsOf(original) {
+			if p, ok := (*props).(*cypher.Properties); ok && p != nil && p.Parameter != nil {
+				carriers = append(carriers, i)
+			}
+		}
+		if len(carriers) != len(shape.names) {
+			fail("harness: %q has %d pattern property parameters, expected %d", shape.text, len(carriers), len(shape.names))
+			continue
+		}
+		assign(shape.names, 0, map[string]any{"__dawgs_pattern_property_0": "user-0", "__dawgs_pattern_property_1": "user-1"}, func(params map[string]any) {
+			cases++
+			supplied := map[string]any{}
+			for k, v := range params {
+				supplied[k] = v
+			}
+			out, outParams, rerr := rewriteQuery(shape.text, supplied)
+			where := fmt.Sprintf("%q with %v", shape.text, params)
+			if rerr != nil {
+				fail("pattern parameters: rewriteQuery(%s) fails: %v", where, rerr)
+				return
+			}
+			sent, err := frontend.ParseCypher(frontend.NewContext(), out)
+			if err != nil {
+				fail("pattern parameters: the text sent for %s does not parse: %q: %v", where, out, err)
+				return
+			}
+			if out != shape.text {
+				expanded++
+			}
+			els := elementsOf(sent)
+			if len(els) != len(elementsOf(original)) {
+				fail("pattern parameters: %s is sent as %q, which has another number of pattern elements", where, out)
+				return
+			}
+			for ci, idx := range carriers {
+				want := params[shape.names[ci]].(map[string]any)
+				got := map[string]any{}
+				switch props := (*els[idx]).(type) {
+				case nil:
+				case *cypher.Properties:
+					if props == nil {
+						break
+					}
+					if props.Parameter != nil {
+						v, _ := outParams[props.Parameter.Symbol].(map[string]any)
+						for k, x := range v {
+							got[k] = x
+						}
+						break
+					}
+					for k, e := range props.Map {
+						if prm, ok := e.(*cypher.Parameter); ok {
+							v, has := outParams[prm.Symbol]
+							if !has {
+								fail("pattern parameters: %s is sent as %q, whose parameter $%s is not among the parameters sent", where, out, prm.Symbol)
+								return
+							}
+							got[k] = v
+						} else {
+							got[k] = e
+						}
+					}
+				default:
+					fail("pattern parameters: %s is sent as %q with an unexpected property form %T", where, out, props)
+					return
+				}
+				if fmt.Sprint(got) != fmt.Sprint(want) {
+					fail("pattern parameters: %s is sent as %q with parameters %v: pattern element %d is constrained to %v, the caller supplied %v for $%s", where, out, outParams, idx, got, want, shape.names[ci])
+					return
+				}
+			}
+			for _, name := range []string{"__dawgs_pattern_property_0", "__dawgs_pattern_property_1", "a"} {
+				if strings.Contains(shape.text, "= $"+name) && strings.Contains(out, "$"+name) && fmt.Sprint(outParams[name]) != fmt.Sprint(params[name]) {
+					fail("pattern parameters: %s is sent as %q with $%s = %v, the caller supplied %v", where, out, name, outParams[name], params[name])
+				}
+			}
+		})
+	}
+	if expanded == 0 {
+		fail("harness: no pattern property parameter was expanded")
+	}
+	res := map[string]any{"name": "neo4j-rewrite", "bound": fmt.Sprintf("comparison chains of 1..3 partial comparisons over %d operands and %d operators in %d positions (%d chains; 3 partials %s); pattern property parameters: 11 pattern shapes with 1..3 map parameters, every assignment of 4 maps (0..3 keys)", len(operands), len(operators), len(shapes), len(chains), map[bool]string{true: "exhaustive", false: "with the fourth operand and the operators rotated"}[thorough]), "cases": cases, "rewritten": rewritten, "pattern_parameters_expanded": expanded, "exhaustive": thorough, "failures": failures}
 	data, _ := json.Marshal(res)
 	fmt.Println("BOUNDED-RESULT " + strings.ReplaceAll(string(data), "\\n", " "))
 	if len(failures) > 0 {
